@@ -252,6 +252,12 @@ def baseline(case, tmp):
     require(sorted(k for k in mem if k not in nan_keys) == sorted(disk), f"the returned table carries the result keywords {sorted(mem)}, the staged file after the last stage {sorted(disk)}")
     for k in disk:
         mv = mem[k][0] if isinstance(mem[k], tuple) else mem[k]
+        mv = mv.item() if isinstance(mv, np.generic) else mv
+        if isinstance(mv, float) and len(repr(mv)) > 20:
+            # astropy allots 20 characters to a numeric card value: the last digits of a longer decimal are cut
+            # (limit of the FITS fixed-format value field, see C16)
+            require(isinstance(disk[k], float) and abs(disk[k] - mv) <= 1e-14 * abs(mv), f"result keyword {k}: {disk[k]!r} in the staged file, {mv!r} in the returned table")
+            continue
         require(c14.same_scalar(disk[k], mv), f"result keyword {k}: {disk[k]!r} in the staged file, {mv!r} in the returned table")
     for j in range(1, len(model) + 1):
         sp = os.path.join(snaps, f"snap_{j:02d}.fits")
